@@ -22,8 +22,9 @@ MANIFEST = {
     "text": ("Theorems about loadImpl / finishLayers / restrict (transcription of Font::load_impl, LayerContents::load, DataRequest): partial_layers_eq_restricted_full "
              "(for every request incl. arbitrary custom predicates and every list of loaded layers, filter + placeholder + move-to-front equals restrictLayers of the full "
              "result), default_layer_always_present_and_first (every successful load, any request), default_layer_empty_when_filtered_out. Correspondence and oracle: "
-             "exhaustive switch x filter-shape enumeration on generated trees; PART = restrict(FULL) on the implementation's own dumps; the garbage variant loads and dumps the same."),
+             "exhaustive switch x filter-shape enumeration on generated trees; PART = restrict(FULL) on the implementation's own dumps; the garbage variant loads and dumps the same."
+             " Second phase: file-level partial_eq_restricted_full, partial_succeeds_if_full_does and unrequested_files_not_read (AgreeOnReadSet) are proved."),
     "design_ref": "5 / C17, 8",
-    "note": "trusted: Lean kernel + 3 standard axioms; harness/driver glue; parsers abstract; file-level partial_eq_restricted_full for the scalar parts is covered by the exhaustive correspondence, see docs/notes/C17.md for what is proved",
+    "note": "trusted: Lean kernel + 3 standard axioms; harness/driver glue; parsers abstract; see docs/notes/C17.md",
     "technique": "Lean 4 proof about a switch-guarded load model + exhaustive differential partial/full loads with corrupted un-requested files",
 }
